@@ -6,6 +6,7 @@ import (
 	"math"
 	"math/big"
 	"strings"
+	"sync"
 	"unicode"
 
 	"github.com/SAP/go-dblib/asetypes"
@@ -643,6 +644,58 @@ func c16CheckReuse(r *rt.Result, l *c16Local, cs c16Case) {
 		}
 		if want := c16Expand(u, sc); got != want {
 			r.Violate("reuse/string-not-the-current-value", fmt.Sprintf("(%d,%d) after steps %v the decimal holds the unscaled integer %s (Int() confirms), String() = %q, the expansion of u/10^%d is %q", cs.P, sc, cs.Steps[:si+1], u, got, sc, want), cs)
+			return
+		}
+		// Int() hands out a copy: the caller computes with it in place
+		// (splitting it into integer and fraction part, say); the decimal
+		// keeps its value
+		var again string
+		var back3 *big.Int
+		if pi := rt.Catch(func() {
+			tmp := d.Int()
+			tmp.Rem(tmp, big.NewInt(1000))
+			tmp.Add(tmp, tmp)
+			tmp.Quo(tmp, big.NewInt(7))
+			tmp.SetInt64(424242)
+			again = d.String()
+			back3 = d.Int()
+		}); pi != nil {
+			r.Violate("panic/"+pi.Frame+"/reuse", fmt.Sprintf("(%d,%d) arithmetic on the result of Int(), then String(): panicked: %s", cs.P, sc, pi.Value), cs)
+			return
+		}
+		if want := c16Expand(u, sc); again != want || back3.Cmp(u) != 0 {
+			r.Violate("reuse/int-result-shares-the-decimals-number", fmt.Sprintf("(%d,%d) the decimal holds %s; after in-place arithmetic on the big.Int that Int() returned it prints %q and Int() = %s (expansion %q)", cs.P, sc, u, again, back3, want), cs)
+			return
+		}
+	}
+	// formatting is a read: several goroutines printing one negative decimal
+	// get the same text (result cells are formatted wherever they are shown)
+	if u.Sign() != 0 && len(cs.Steps)%2 == 0 {
+		want := c16Expand(u, sc)
+		var wg sync.WaitGroup
+		bad := make([]string, 4)
+		for w := 0; w < 4; w++ {
+			wg.Add(1)
+			go func(w int) {
+				defer wg.Done()
+				for i := 0; i < 200; i++ {
+					if t := d.String(); t != want {
+						bad[w] = t
+						return
+					}
+				}
+			}(w)
+		}
+		wg.Wait()
+		l.ctr["reuse_concurrent_formatting"]++
+		for _, t := range bad {
+			if t != "" {
+				r.Violate("reuse/concurrent-formatting-differs", fmt.Sprintf("(%d,%d) four goroutines printing one decimal holding %s: one of them got %q, the expansion is %q", cs.P, sc, u, t, want), cs)
+				return
+			}
+		}
+		if again := d.String(); again != want {
+			r.Violate("reuse/concurrent-formatting-differs", fmt.Sprintf("(%d,%d) after four goroutines printed the decimal holding %s it prints %q", cs.P, sc, u, again), cs)
 			return
 		}
 	}
